@@ -196,7 +196,10 @@ def wireDiag (content : Text) (d : Diag) : Diag :=
 
 /-- a message as it goes on the wire; every publication is computed from the text the server holds for that document -/
 def wire (s : Srv) : Msg → Msg
-  | .pub uri ds => .pub uri (ds.map (wireDiag (textOf0 s.texts uri)))
+  | .pub uri ds =>
+    -- packages whose value is written over several lines are not checked at all (`is_on_one_line`)
+    .pub uri ((ds.filter fun d => Pos.onOneLine (textOf0 s.texts uri) d.pkg.column d.pkg.startOffset d.pkg.endOffset).map
+      (wireDiag (textOf0 s.texts uri)))
   | m => m
 
 def textOf (s : Srv) (uri : Text) : Text := ((s.texts.find? (·.1 == uri)).map (·.2)).getD []
